@@ -115,7 +115,11 @@ def classify(diag, gen, unit):
             name += '@src:%s' % sd.get('src_line')
         elif sd.get('k') in ('inv', 'spec', 'entry'):
             name += '@%s#%s' % (sd.get('loop', sd.get('k')), sd.get('clause'))
+    site_d = describe_line(gen, site_sp.get('line_start')) if (site_sp is not None and own(site_sp)) else {}
+    clause_d = describe_line(gen, clause_sp.get('line_start')) if (clause_sp is not None and own(clause_sp)) else {}
     ob = {
+        'props_site': site_d.get('fn_props'),
+        'props_clause': clause_d.get('props') if clause_d.get('props') else clause_d.get('fn_props') if clause_d.get('k') in ('spec', 'inv') and kind.startswith('post') else clause_d.get('props'),
         'name': name,
         'unit': unit,
         'function': fn_site.get('fn', '?'),
